@@ -70,12 +70,23 @@ def np_model():
 
 
 def geometry_models(ip, dom):
-    gd, td = dom.attrs["geometric_dimension"], dom.attrs["topological_dimension"]
-    return {
-        "Jacobian": lambda d: T.symbolic("J", (gd, td)),
-        "JacobianInverse": lambda d: T.symbolic("K", (td, gd)),
-        "JacobianDeterminant": lambda d: T.symbolic("detJ", ()),
-    }
+    gd, td = (dom.attrs["geometric_dimension"], dom.attrs["topological_dimension"]) if isinstance(dom, Obj) else (dom.geometric_dimension, dom.topological_dimension)
+    def tag(d):
+        if isinstance(d, Obj):
+            return d.attrs.get("_tag", "")
+        if isinstance(d, T):  # a geometric quantity of that mesh (JacobianDeterminant(J))
+            return d.tags.get("_tag", "")
+        return ""
+
+    def sym_geo(name, shape):
+        def model(d):
+            t = T.symbolic(name + tag(d), shape)
+            t.tags["_tag"] = tag(d)
+            return t
+
+        return model
+
+    return {"Jacobian": sym_geo("J", (gd, td)), "JacobianInverse": sym_geo("K", (td, gd)), "JacobianDeterminant": sym_geo("detJ", ())}
 
 
 def make_domain(gdim, tdim):
@@ -86,8 +97,8 @@ def make_domain(gdim, tdim):
 
 
 # ---------------------------------------------------------------- oracle
-def push(kind, r: T, gdim, tdim) -> T:
-    J, K, detJ = T.symbolic("J", (gdim, tdim)), T.symbolic("K", (tdim, gdim)), sym.sym("detJ")
+def push(kind, r: T, gdim, tdim, tag="") -> T:
+    J, K, detJ = T.symbolic("J" + tag, (gdim, tdim)), T.symbolic("K" + tag, (tdim, gdim)), sym.sym("detJ" + tag)
     inv = sym.div(sym.ONE, detJ)
     sh = r.shape
 
@@ -278,6 +289,78 @@ def run(ctx) -> Report:
             else:
                 rep.violation("C08-shape/MixedPullback", f_shape, what, f"physical_value_shape gives {tuple(shp)}, push-forward has shape {want.shape}")
 
+    # ---- mixed element on a sequence of component meshes (one mesh, hence one geometry, per sub-element) ---------
+    MS = prog.get_class("ufl.domain.MeshSequence")
+
+    class MeshSeq:
+        """stand-in for a MeshSequence: a sized, indexable, iterable collection of component meshes (host object)"""
+
+        __lift_host__ = True
+
+        def __init__(self, gdim, tdim, meshes):
+            self.geometric_dimension, self.topological_dimension, self.meshes = gdim, tdim, tuple(meshes)
+
+        def __len__(self):
+            return len(self.meshes)
+
+        def __getitem__(self, i):
+            return self.meshes[i]
+
+        def __iter__(self):
+            return iter(self.meshes)
+
+        def iterable_like(self, element):
+            return list(self.meshes)
+
+    def mesh_sequence(gdim, tdim, k):
+        meshes = []
+        for n in range(k):
+            d = Obj("domain", geometric_dimension=gdim, topological_dimension=tdim, _tag=f"@m{n}")
+            d.attrs["__class__"] = None
+            meshes.append(d)
+        return MeshSeq(gdim, tdim, meshes), meshes
+
+    seq_layouts = [
+        # (sub-elements as (pullback, mapped axes, block), positions sharing one element object)
+        ([("ContravariantPiola", 1, ()), ("ContravariantPiola", 1, ())], [(0, 1)]),
+        ([("CovariantPiola", 1, ()), ("IdentityPullback", 0, ()), ("CovariantPiola", 1, ())], [(0, 2)]),
+        ([("L2Piola", 0, ()), ("L2Piola", 0, ())], [(0, 1)]),
+        ([("ContravariantPiola", 1, ()), ("CovariantPiola", 1, ()), ("IdentityPullback", 0, ())], []),
+        ([("IdentityPullback", 0, ()), ("ContravariantPiola", 1, ()), ("ContravariantPiola", 1, ())], []),
+    ]
+    for gdim, tdim in [(2, 2), (3, 2)]:
+        for layout, shared in seq_layouts:
+            ms, meshes = mesh_sequence(gdim, tdim, len(layout))
+            ip = new_interp(ms)
+            ip.isinstance_hook = lambda x, cls: isinstance(x, MeshSeq) if getattr(cls, "name", None) == "MeshSequence" else NotImplemented
+            subs = [element(blk + (tdim,) * nmapped, pb_obj(cname)) for cname, nmapped, blk in layout]
+            for a, b in shared:
+                subs[b] = subs[a]  # the same element (equal and identical) at two positions, on two different meshes
+            total = sum(e.attrs["reference_value_size"] for e in subs)
+            el = element((total,), None, subs)
+            pb = pb_obj("MixedPullback", _element=el)
+            el.attrs["pullback"] = pb
+            r = T.symbolic("r", (total,))
+            what = f"MixedPullback.apply on a sequence of {len(layout)} meshes, gdim={gdim} tdim={tdim}, sub-elements {[c for c, _, _ in layout]}{' (positions ' + str(shared[0]) + ' hold the same element)' if shared else ''}"
+            want_flat, off = [], 0
+            for n, ((cname, nmapped, blk), e) in enumerate(zip(layout, subs)):
+                size, rs = e.attrs["reference_value_size"], e.attrs["reference_value_shape"]
+                comps = list(itertools.product(*[range(d) for d in rs]))
+                rsub = T(rs, (), (), {(c, ()): r.get((off + k,)) for k, c in enumerate(comps)})
+                want_flat.extend(flat(push(KINDS[cname][0], rsub, gdim, tdim, tag=f"@m{n}")))
+                off += size
+            want = T((len(want_flat),), (), (), {((k,), ()): v for k, v in enumerate(want_flat)})
+            try:
+                got = uflsem.as_T(ip.call_function(f_apply, [r], {}, self_obj=pb))
+            except LiftRaise as e:
+                rep.violation("C08-mixed/sequence", f_apply, what, f"{what}: lifted apply raises {e.what}")
+                continue
+            ok, how, wit = equal_T(got, want, rng=ctx.rng)
+            if ok:
+                rep.ok("C08-mixed/sequence", f_apply, f"{what}: every block pushed forward with the geometry of its own mesh ({how})")
+            else:
+                rep.violation("C08-mixed/sequence", f_apply, what, f"{what}: a block is not pushed forward with the geometry of its own component mesh ({how}): {wit}", witness=wit)
+
     # ---- symmetric -----------------------------------------------------------
     sym_cls = prog.get_class(f"{MOD}.SymmetricPullback")
     f_init = prog.lookup(sym_cls, "__init__")
@@ -418,7 +501,7 @@ def run(ctx) -> Report:
     rep.assumptions = [
         "J, K and detJ are independent symbols: the identities K = J^-1 and detJ = det J are not needed for the push-forward formulas",
         "numpy ndindex/asarray/reshape/prod are modelled by their documented semantics (row-major)",
-        "MeshSequence (mixed-mesh) branches are not instantiated",
+        "MeshSequence (mixed-mesh) branch instantiated for MixedPullback.apply only (stand-in sequence of component meshes with independent geometries)",
     ]
     from ..memokey import memo_rule
 
